@@ -48,6 +48,13 @@ INSTATE = ['sig_other_key', 'reward_plus_one', 'spend_missing', 'outs_exceed_inp
            'ev_sample', 'height_plus_2', 'spend_same_block', 'spend_same_block', 'spend_noncurve_key_output', 'dup_ref_in_block']
 
 
+# malformed input that fails before any rule that looks at the chain (framing, decoding, the block-by-itself rules)
+WHILE_BULK = ['bad_magic', 'len_over', 'garbage', 'unknown_msg_type', 'truncated_payload', 'unknown_data_type', 'bad_block_payload',
+              'bad_tx_payload', 'struct_tx', 'struct_block', 'struct_block', 'struct_block_response', 'corrupt_body_then_honest',
+              'corrupt_body_then_honest']
+WHILE_BULK_BLOCKS = ['no_txs', 'wrong_merkle', 'two_rewards', 'reward_not_first']
+
+
 def generate(seed, tier):
     rng = Streams(seed).get('gen')
     base = 'hreal' if rng.random() < 0.6 else 'hlow_easy'
@@ -62,6 +69,11 @@ def generate(seed, tier):
             m = LC.gen_mine(rng, latest_bias=0.7, max_txs=2)
             m.update({'op': 'honest_relay', 'peer': rng.randrange(3), 'overlap': rng.random() < 0.4, 'clock': 0})
             ops.append(m)
+        elif x < 0.345 and x >= 0.32:
+            # a bulk download in progress (blocks installed unvalidated, only buffered for the store) while malformed input
+            # arrives from another peer: the download's blocks are chain state like any other
+            ops.append({'op': 'bulk_then_malformed', 'n': rng.choice([1, 2, 3]), 'peer': rng.randrange(3), 'miner': rng.randrange(12),
+                        'adv': rng.choice(WHILE_BULK), 'sub': rng.choice(WHILE_BULK_BLOCKS), 'a': rng.randrange(100000), 'b': rng.randrange(1000)})
         elif x < 0.32:
             ops.append({'op': 'honest_tx', 'spec': LC.gen_tx_spec(rng), 'peer': rng.randrange(3), 'overlap': rng.random() < 0.4})
         else:
@@ -264,7 +276,7 @@ def execute(script):
             elif kind == 'getblocks_unknown':
                 send(frame(hdr() + M.GetBlocksMessage([bytes([a % 256]) * 32, bytes([b % 256]) * 32]).serialize()))
             elif kind in ('struct_block', 'struct_block_response'):
-                blk = forged_block(STRUCT_BLOCKS[a % len(STRUCT_BLOCKS)], op)
+                blk = forged_block(op.get('sub') or STRUCT_BLOCKS[a % len(STRUCT_BLOCKS)], op)
                 if blk is None:
                     return
                 try:
@@ -391,7 +403,7 @@ def execute(script):
             if pool != sorted(rules.tx_id(t) for t in expected_pool):
                 res.violate(PROP, 'C20/pool-changed', '%s: pool has %d transactions, expected %d' % (what, len(pool), len(expected_pool)))
                 return False
-            if w.store_ids() != expected_ids:
+            if w.store_ids() != expected_ids - unflushed:
                 res.violate(PROP, 'C20/store-changed', '%s: store rows differ from the accepted blocks' % what)
                 return False
             nm = node.lp.network_manager
@@ -411,6 +423,7 @@ def execute(script):
             return True
 
         closed_by_us = set()
+        unflushed = set()       # blocks of a bulk download in progress: chain state, but only buffered for the store
 
         def settle_all(what):
             nonlocal expected_pool, honest_pending
@@ -425,6 +438,7 @@ def execute(script):
                         sim.stored.append(bid)
                         sim.block_objs[bid] = obj
                         expected_ids.add(bid)
+                        unflushed.clear()       # a validated block takes everything buffered to the store with it
                         res.bump('honest_blocks')
                 else:
                     expected_pool.append(obj)
@@ -474,6 +488,57 @@ def execute(script):
                 c.send(M.DataMessage(M.DATA_BLOCK, blk))
                 honest_pending.append(('block', blk))
                 dirty = True
+            elif kind == 'bulk_then_malformed':
+                if not settle_all('before bulk download'):
+                    break
+                hb = chain.head()
+                n_b = op.get('n', 1)
+                if hb.ts + n_b + 2 > w.node_clock() + 10:
+                    continue
+                c = w.conn(op.get('peer', 0))
+                if c is None:
+                    continue
+                taken_ok = True
+                for j_ in range(n_b):
+                    hb = chain.head()
+                    blk = W.roundtrip(W.mine_honest(W.view_at(sim.cs, hb.id), [], W.key(op.get('miner', 0) % 12), hb.ts + 1, data=b'bulk%d' % j_))
+                    bid = rules.block_id(blk)
+                    c.offer_block(blk)           # announce, be asked, serve
+                    w.settle(3000)
+                    if bid not in w.node_ids() or w.cm.coinstate is w.cm.last_known_valid_coinstate:
+                        # not taken, or taken with full validation: no download in progress (nothing wrong with that)
+                        if bid in w.node_ids():
+                            honest_pending.append(('block', blk))
+                        taken_ok = False
+                        break
+                    sim.cs = sim.cs.add_block_no_validation(blk)
+                    chain.add(blk)
+                    sim.stored.append(bid)
+                    sim.block_objs[bid] = blk
+                    expected_ids.add(bid)
+                    unflushed.add(bid)
+                if not settle_all('during bulk download'):
+                    break
+                if not taken_ok:
+                    res.bump('bulk_download_not_in_progress')
+                    continue
+                res.bump('probe:malformed_input_during_bulk_download')
+                do_adv({'kind': op['adv'], 'a': op.get('a', 0), 'b': op.get('b', 0), 'sub': op.get('sub')})
+                if not settle_all('after %s during a bulk download' % op['adv']):
+                    break
+                # the download ends with a validated block (relayed by another honest peer)
+                hb = chain.head()
+                if unflushed:
+                    blk = W.roundtrip(W.mine_honest(W.view_at(sim.cs, hb.id), [], W.key(3), hb.ts + 1, data=b'closing'))
+                    c2 = w.conn(op.get('peer', 0) + 1)
+                    if c2 is not None:
+                        c2.send(M.DataMessage(M.DATA_BLOCK, blk))
+                        honest_pending.append(('block', blk))
+                    if not settle_all('after the block that ends the bulk download'):
+                        break
+                    if unflushed:
+                        res.bump('bulk_download_left_open')
+                        break
             elif kind == 'honest_tx':
                 if honest_pending:
                     if not settle_all('before transaction'):
